@@ -4,11 +4,11 @@
 # untouched and several evaluations can run side by side). Prints one line per seed: rc and the VIOLATION lines.
 ID=$1; TIER=${2:-quick}; shift; shift; SEEDS=${@:-1 2 3}
 P=${PROP:-$ID}
-W=/tmp/se-$ID; K=/tmp/wk-$ID
+W=/tmp/se${TAG}-$ID; K=/tmp/wk${TAG}-$ID
 git -C /repo worktree remove --force $W 2>/dev/null; rm -rf $K
 git -C /repo worktree add --detach $W HEAD >/dev/null 2>&1 || exit 2
 git -C $W apply /verif/seeded/$ID/patch.diff || exit 2
-mkdir -p $K; rsync -a --exclude .git --exclude .build --exclude replays --exclude seeded /verif/ $K/
+mkdir -p $K; rsync -a --exclude .git --exclude .build --exclude replays --exclude seeded ${SRC:-/verif}/ $K/
 for s in $SEEDS; do
   VERIF_ROOT=$K VERIF_REPO=$W VERIF_SEED=$s $K/bin/check $P $TIER > $K/out_$s.log 2>&1; rc=$?
   echo "seeded=$ID prop=$P tier=$TIER seed=$s rc=$rc $(grep -c '^VIOLATION' $K/out_$s.log) violations: $(grep '^VIOLATION' $K/out_$s.log | sed 's/.*replay=.*replays\///' | tr '\n' ' ' | head -c 300) $(grep '^INFRA' $K/out_$s.log | head -c 300)"
